@@ -959,3 +959,15 @@ Proof.
   - now apply rectangle_cell.
   - now apply text_cell.
 Qed.
+
+(* the TEXT layer of the theorems is the grid of `draw` followed by the extra line of the Rust canvas *)
+Lemma map_const_seq {A} (c : A) n : forall a, map (fun _ => c) (seq a n) = repeat c n.
+Proof. induction n as [|n IH]; intro a; [reflexivity|]. cbn [seq map repeat]. now rewrite IH. Qed.
+
+Theorem T_is_grid d : T d = draw_grid d ++ [repeat cOuter (Wd d)].
+Proof.
+  unfold T, draw_grid, tab. rewrite seq_S, map_app. cbn [Nat.add map]. f_equal.
+  - apply map_ext_in. intros y Hy. apply in_seq in Hy. apply map_ext. intro x. unfold chT.
+    now replace (y <? Hd d) with true by (symmetry; apply Nat.ltb_lt; lia).
+  - f_equal. unfold chT. rewrite Nat.ltb_irrefl. apply map_const_seq.
+Qed.
